@@ -346,7 +346,8 @@ class Lark(Serialize, Generic[_Return_T]):
                 unhashable = ('transformer', 'postlex', 'lexer_callbacks', 'edit_terminals', '_plugins')
                 options_items = [(k, str(v)) for k, v in options.items() if k not in unhashable]
                 from . import __version__
-                s = repr((grammar, options_items, __version__, sys.version_info[:2]))
+                # source_path: relative imports are resolved against it, so the same text in another place is another grammar
+                s = repr((grammar, self.source_path, options_items, __version__, sys.version_info[:2]))
                 cache_sha256 = sha256_digest(s)
 
                 if isinstance(self.options.cache, str):
